@@ -12,6 +12,7 @@
 -/
 import AITB.Model.ModelState
 import AITB.Model.SamplingModels
+import AITB.Gen.C06Sites
 namespace AITB.MS
 open AITB AITB.Factored AITB.Sampling
 
@@ -41,6 +42,11 @@ def jointProbLoop (g : Graph) (mats : List Mat) (s a s1 : List Nat) : Rat :=
 /-- … and structurally -/
 def jointProb (g : Graph) (mats : List Mat) (s a s1 : List Nat) : Rat :=
   prodIdx (fun i => dynEntry g mats s a i (s1.getD i 0)) g.S.length
+
+/-- `DDN::getTransitionProbability(const PartialFactors & s, a, s1)` for full `s`, `a` and a partial `s1` = (feature, value) pairs:
+    `for j: nodeId = s1.first[j]; retval *= transitions[nodeId](graph.getId(nodeId, s, a), s1.second[j])` -/
+def marginalProb (g : Graph) (mats : List Mat) (s a : List Nat) (sub : List (Nat × Nat)) : Rat :=
+  sub.foldl (fun acc kv => acc * dynEntry g mats s a kv.1 kv.2) 1
 
 /-- all tuples `[x_0, …, x_{n-1}]` with `x_i < dims i`, last factor fastest -/
 def enumN (dims : Nat → Nat) : Nat → List (List Nat)
